@@ -6,7 +6,7 @@ import warnings
 ABSENT = object()
 CTX_RESOURCE = 3000
 ORIGIN_BASE = {'H': 1000, 'I': 1010, 'X': 1020}
-H_IDS = {'HTTPNotFound': 1000, 'PredicateMismatch': 1001, 'HTTPForbidden': 1002}
+H_IDS = {'HTTPNotFound': 1000, 'PredicateMismatch': 1001, 'HTTPForbidden': 1002, 'ValueError': 1032}
 F_IDS = {'HTTPNotFound': 0, 'PredicateMismatch': 1, 'ValueError': 2, 'HTTPForbidden': 3}
 
 
@@ -126,7 +126,7 @@ def under_factory(handler, registry):
             if prog[0] == 'catch' and isinstance(e, Exception):
                 before = env.snapshot(request)
                 try:
-                    resp = request.invoke_exception_view(reraise=bool(prog[1]))
+                    resp = request.invoke_exception_view(reraise=bool(prog[1]), secure=bool(prog[2]))
                 except BaseException as e2:
                     env.note(e2, 'I')
                     env.log.append([1, env.lab(e), before, [2, env.lab(e2)], env.snapshot(request)])
@@ -134,8 +134,8 @@ def under_factory(handler, registry):
                 env.log.append([1, env.lab(e), before, env.outcome(resp), env.snapshot(request)])
             else:
                 raise
-        if prog[0] == 'catch' and prog[2] is not None:
-            raise env.exc(prog[2])
+        if prog[0] == 'catch' and prog[3] is not None:
+            raise env.exc(prog[3])
         return resp
     return under
 
